@@ -22,6 +22,8 @@ def declare(reg):
         ('whitespace_re', 'Val'), ('config', 'TLConfig'),
     ])
     S.declare_record('Cursor', [('pos', 'int'), ('len', 'int'), ('textstr', 'str'), ('input', 'TLInput'), ('_namechars', 'strset')], mutable=True)
+    S.declare_record('BInput', [('ignorecase', 'bool'), ('nameguard', 'bool'), ('_namechar_set', 'strset'), ('len', 'int')])
+    S.declare_record('BCursor', [('pos', 'int'), ('len', 'int'), ('textstr', 'str'), ('buffer', 'BInput')], mutable=True)
     S.declare_record('ASTD', [('dkeys', 'strset'), ('dvals', 'strmap')], mutable=True)
     S.declare_record('AlertR', [('level', 'int'), ('message', 'Val')])
     S.declare_record('Frame', [
@@ -113,6 +115,11 @@ def declare(reg):
         'isa': ['Cursor', 'TextLinesCursor'],
     }
     reg.opaque_attrs[('*', 'namechars')] = ('attr', 'strset')
+    reg.classes['BCursor'] = {
+        'mro': ['tatsu/input/buffer.py:BufferCursor'],
+        'wf': ['self.len == len(self.textstr)', 'self.buffer.len == self.len', '0 <= self.pos', 'self.pos <= self.len'],
+        'isa': ['Cursor', 'BufferCursor'],
+    }
     reg.classes['ASTD'] = {'mro': ['tatsu/contexts/ast.py:AST'], 'isa': ['AST', 'dict']}
     reg.classes['Frame'] = {
         'mro': ['tatsu/contexts/state.py:ParseState'],
